@@ -58,6 +58,19 @@ def run(ctx):
     g = ctx.graph
     mt = ctx.micro
     isa = spec.load("isa")
+    # "switching step mode at any point does not alter the computation": the switch writes the mode field and nothing else
+    from .. import absint as _ai, step as _st
+    for newmode in range(len(p.need_type("L::machine::StepMode")["variants"])):
+        Is = _ai.Interp(p)
+        ovs = _st.machine_overrides(p, None, ["Running", "Stopped", "ErrorStopped"], None, stacksize_notset=True)
+        sts, mas, _r = _st.run_method(p, Is, _st.MACHINE + "::set_step_mode", ovs, extra_args=[En({newmode: ()})], ty=_st.MACHINE)
+        wr = sorted(_st.written_fields(p, Is, ty=_st.MACHINE))
+        calls_ = sorted({c for (_b, c) in Is.call_edges if c and c.startswith("L::machine::")})
+        chk.ob("mode-switch/%s" % p.need_type("L::machine::StepMode")["variants"][newmode]["n"],
+               wr == ["step_mode"] and not calls_,
+               "switching the step mode only records the mode: no clock edge is issued, nothing else of the machine changes",
+               p.need_body(_st.MACHINE + "::set_step_mode").loc(), "fields written: %s; machine routines called: %s" % (wr, calls_),
+               "A4 write log of Machine::set_step_mode on an unknown machine")
     # "a step always returns": every defined opcode reaches the next fetch, the MUL/DIV loops included (the rule of C09,
     # shared; it brings the ALU rule of C08 with it)
     from . import C09
